@@ -84,7 +84,35 @@ func c05GenValid(w *World, pr *Proto, p *Peer) (model.DatagramType, string) {
 		}
 		return fns[w.T.Choose(len(fns), "fn")].Fn
 	}
-	switch w.T.Choose(14, "valid-kind") {
+	kind := w.T.Choose(14, "valid-kind")
+	if kind >= 3 && kind <= 6 && w.T.Bool(1, 3, "node-management-as-client") {
+		// what real devices do first: their node management subscribes to ours (the only
+		// registry entry that can be made before the discovery reply)
+		nmT := model.FeatureTypeTypeNodeManagement
+		ca, sa := p.NM().Address(), p.LocalNM()
+		if w.T.Bool(1, 3, "omit-device") {
+			ca.Device = nil
+		}
+		var cmd model.CmdType
+		tag := ""
+		switch kind {
+		case 3:
+			tag = "subscribe-nm"
+			cmd.NodeManagementSubscriptionRequestCall = &model.NodeManagementSubscriptionRequestCallType{SubscriptionRequest: &model.SubscriptionManagementRequestCallType{ClientAddress: ca, ServerAddress: sa, ServerFeatureType: &nmT}}
+		case 4:
+			tag = "unsubscribe-nm"
+			cmd.NodeManagementSubscriptionDeleteCall = &model.NodeManagementSubscriptionDeleteCallType{SubscriptionDelete: &model.SubscriptionManagementDeleteCallType{ClientAddress: ca, ServerAddress: sa}}
+		case 5:
+			tag = "bind-nm"
+			cmd.NodeManagementBindingRequestCall = &model.NodeManagementBindingRequestCallType{BindingRequest: &model.BindingManagementRequestCallType{ClientAddress: ca, ServerAddress: sa, ServerFeatureType: &nmT}}
+		default:
+			tag = "unbind-nm"
+			cmd.NodeManagementBindingDeleteCall = &model.NodeManagementBindingDeleteCallType{BindingDelete: &model.BindingManagementDeleteCallType{ClientAddress: ca, ServerAddress: sa}}
+		}
+		w.Probe("c05-node-management-registry-call")
+		return mk(p.NM().Address(), p.LocalNM(), model.CmdClassifierTypeCall, cmd, tag)
+	}
+	switch kind {
 	case 0: // discovery reply
 		return mk(p.NM().Address(), p.LocalNM(), model.CmdClassifierTypeReply, model.CmdType{NodeManagementDetailedDiscoveryData: p.DiscoveryData(nil, nil, true)}, "dd-reply-again")
 	case 1: // discovery notify, partial add or remove of some entity
